@@ -194,6 +194,24 @@ func (in *Interp) Event(name string, payload []Val) error {
 	if h == nil {
 		return rterr("no-handler", "no handler for %s", name)
 	}
+	// every declared parameter (named or _) takes a payload element of its type; a mismatch is reported and the handler does not run
+	for i, p := range h.Params {
+		if i >= len(payload) {
+			return rterr("latitude", "payload shorter than the signature")
+		}
+		ok := false
+		switch p.T.K {
+		case pt.Num:
+			_, ok = payload[i].(float64)
+		case pt.Str:
+			_, ok = payload[i].(string)
+		case pt.Bool:
+			_, ok = payload[i].(bool)
+		}
+		if !ok {
+			return rterr("panic:assertion", "event %s: payload element %d is not a %s", name, i, p.T)
+		}
+	}
 	saved := in.cur
 	in.cur = &frame{vars: map[string]*cell{}, outer: in.global}
 	defer func() { in.cur = saved }()
